@@ -74,6 +74,10 @@ func c16ScenarioWrite(r *sim.Run) {
 	}
 	dummy := &c16Dummy{}
 	conn := newSCTPConn(mid, dummy, 65536)
+	// let the heartbeat goroutines reach their first blocking point (the client sends its first
+	// heartbeat at once) before the writer starts: otherwise the two write to the stream at the same
+	// simulated instant in an order only the Go scheduler decides
+	synctest.Wait()
 	closed := false
 	defer func() {
 		if !closed {
